@@ -297,42 +297,42 @@ DST = "deterministic simulation with fault injection"
 CLAIMS = {
     "C17": dict(text="every draw of the ELBO estimator is scripted: per-draw identity with log p - log q, tightness at the exact posterior for every draw, quadrature totals for the ELBO and each gradient direction against closed forms, and the optimisation history replayed iteration by iteration under the script it consumed",
                 ref="DESIGN.md 4 C17", note="conjugate Gaussian targets only (closed forms); float32 tolerance 2e-3 / 1e-2 (gradients)", technique=DST + " (SCRIPTED randomness seam: quadrature trees + recorded optimisation history replay)"),
-    "C11": dict(text="every internal draw of the estimators is scripted: weighted outcome trees (enumeration x quadrature nodes) give E[estimate] and E[jvp tangent] exactly up to quadrature error and compare them with E[f], dE[f] of the reference integrand; enumeration-only programs consume no randomness; per-draw grad/jvp consistency under seed/jit/modular_vmap",
+    "C11": dict(text="every internal draw of the estimators is scripted: weighted outcome trees (enumeration x quadrature nodes) give E[estimate] and E[jvp tangent] exactly up to quadrature error and compare them with E[f], dE[f] of the reference integrand; enumeration-only programs consume no randomness; per-draw grad/jvp consistency under seed/jit/modular_vmap; sites inside cond branches; REAL two-stage mean-gradient tests wherever a pure continuation runs a primitive's keyed sampler",
                 ref="DESIGN.md 4 C11", note="smooth integrands, <=3 primitives, quadrature tolerance 2e-3/5e-3", technique=DST + " (SCRIPTED randomness seam: outcome tree x quadrature nodes)"),
     "C08": dict(text="TRACER sites under the real ModularVmap show, per lane, which parameter cell each draw was paired with and which key it got; layouts compared with jax.vmap of the deterministic skeleton for generated axis specifications; Vmap/repeat combinators checked lane by lane against the reference for all five GFI methods",
                 ref="DESIGN.md 4 C08", note="bounded sizes (<=4 lanes, depth 2); jax.vmap layout trusted", technique=DST + " (TRACER randomness seam under the real batching rules; SCRIPTED lane-wise reference)"),
-    "C10": dict(text="SMC pipelines as histories of moves: per-particle weight identity against the reference along the ancestry after every move; complete outcome trees give E[exp(lml)] and E[exp(lml)*estimate(h)] exactly and compare them with brute-force evidence / posterior integrals after every step; rejuvenation_smc end-to-end by a two-stage test",
+    "C10": dict(text="SMC pipelines as histories of moves: per-particle weight identity against the reference along the ancestry after every move; complete outcome trees give E[exp(lml)] and E[exp(lml)*estimate(h)] exactly and compare them with brute-force evidence / posterior integrals after every step; rejuvenation_smc end-to-end by a two-stage test; pilot runs on the same model/proposal objects; zero-weight particles and dead collections",
                 ref="DESIGN.md 4 C10", note="tiny discrete models for trees (K=M=2, N<=3, T<=3); chain models for the machine", technique=DST + " (SCRIPTED randomness seam: move histories + outcome-tree explorer; REAL key batches)"),
     "C09": dict(text="every internal draw of a kernel step is scripted: proposals compared with the reference proposal formulas, per-coordinate noise counted, the accept uniform placed either side of the reference threshold, rejected moves bit-identical; complete outcome trees give the exact mh transition matrix, checked for detailed balance and invariance against the reference posterior",
                 ref="DESIGN.md 4 C09", note="float32 vs float64-FD tolerance 5e-3; thresholds at +-1.5%; small discrete state spaces for trees", technique=DST + " (SCRIPTED randomness seam with adversarially placed accept thresholds + outcome-tree transition matrix)"),
     "C20": dict(text="backward sampling and the step models are decided through the randomness seam: complete outcome trees give the exact law of the sampled state sequence / simulated joint, compared with brute-force enumeration and dense-Gaussian conditioning; filter/smoother are op-level comparisons against the same references",
                 ref="DESIGN.md 4 C20", note="small sizes (K,M<=3, T<=4, d<=3); float32 tolerance 5e-3 for Kalman recursions", technique=DST + " (SCRIPTED randomness seam + outcome-tree explorer; brute-force / dense-Gaussian reference)"),
-    "C13": dict(text="sampler clause simulated over keys and vectorisation configurations (seed, jit, modular_vmap, vmap of keys) with shape/dtype exact and two-stage goodness-of-fit tests against scipy; logpdf and normalisation compared op by op against scipy (pure clauses, labelled as such)",
+    "C13": dict(text="sampler clause simulated over keys and vectorisation configurations (seed, jit, modular_vmap, vmap of keys) with shape/dtype exact and two-stage goodness-of-fit tests against scipy; logpdf and normalisation compared op by op against scipy (pure clauses, labelled as such); user wrappers incl. one closing over array constants; nested lanes with different parameters",
                 ref="DESIGN.md 4 C13", note="scipy.stats reference; statistical clauses have false-alarm probability ~1e-12 per hypothesis", technique=DST + " (REAL randomness seam over key batches and configurations; op-level reference comparison for the pure clauses)"),
-    "C14": dict(text="seeded search over placements of a sampling site in JAX control flow/transformations and over histories of flag flips, cache flushes, logical-clock jumps and failing neighbours; unseeded compile attempts must raise, seeded results must follow the key and not the clock",
+    "C14": dict(text="seeded search over placements of a sampling site in JAX control flow/transformations and over histories of flag flips, cache flushes, logical-clock jumps and failing neighbours; unseeded compile attempts must raise, seeded results must follow the key and not the clock; persistent function objects probed seeded then unseeded; chains of opaque wrappers",
                 ref="DESIGN.md 4 C14", note="placements bounded to depth 3; fresh function objects per probe", technique=DST + " (logical-clock jumps + cache loss between repeated seeded calls expose hidden randomness)"),
     "C16": dict(text="through the randomness seam: the leaves redrawn by regenerate and moved by mala/hmc (SCRIPTED accept) are exactly the leaves filter selects and the Boolean meaning of generated selection expressions; chained match / filter-merge partition as op-level comparisons",
                 ref="DESIGN.md 4 C16", note="algebra clauses are pure op-level comparisons (stated in the evidence); bounded nesting",
                 technique=DST + " (randomness seam shows which leaves receive fresh randomness; Boolean-algebra reference)"),
-    "C19": dict(text="save events as messages, the returned dict as delivery: exactly-once, last-writer-wins, in-order stacking, checked for generated placements under eager/jit/seed against the fold of the same events over the program's own returned values",
+    "C19": dict(text="save events as messages, the returned dict as delivery: exactly-once, last-writer-wins, in-order stacking, checked for generated placements under eager/jit/seed against the fold of the same events over the program's own returned values; repeated calls of one wrapped object; reverse/unrolled scans; bodies closing over per-call values",
                 ref="DESIGN.md 4 C19", note="eager-only clauses are op-level comparisons; save inside cond branches is outside the claim and not generated",
                 technique=DST + " (event-history oracle over save messages; REAL regime under seed/jit)"),
-    "C18": dict(text="history refinement: chain(kernel) under a script vs a Python-loop fold of the same kernel under the same script, for seeded (n_steps, burn_in, thinning, n_chains) and kernels; REAL thinned run vs slice of the un-thinned run bit for bit",
+    "C18": dict(text="history refinement: chain(kernel) under a script vs a Python-loop fold of the same kernel under the same script, for seeded (n_steps, burn_in, thinning, n_chains) and kernels; REAL thinned run vs slice of the un-thinned run bit for bit; one chain object reused across settings within a history",
                 ref="DESIGN.md 4 C18", note="script-identical randomness is provided by the SCRIPTED seam; sampled grids", technique=DST + " (SCRIPTED randomness seam, recorded iterate history vs fold)"),
-    "C12": dict(text="the resampling randomness is a schedule decision: systematic offsets swept over a grid and all cell boundaries, categorical index vectors enumerated completely for N<=4; copy faithfulness, weight reset, lml conservation, floor/ceil copies and exact expected copies checked per script",
+    "C12": dict(text="the resampling randomness is a schedule decision: systematic offsets swept over a grid and all cell boundaries, categorical index vectors enumerated completely for N<=4; copy faithfulness, weight reset, lml conservation, floor/ceil copies and exact expected copies checked per script; earlier resampling steps with other sizes in the same history",
                 ref="DESIGN.md 4 C12", note="float32 cumsum tolerance 1e-4 in N*w; sampled weight vectors", technique=DST + " (SCRIPTED randomness seam: offset sweep + outcome tree)"),
-    "C01": dict(text="seeded search over generated programs and operation histories; every simulate/assess compared with an independent reference PPL; small discrete programs covered by complete outcome trees (simulated distribution == assessed density outcome by outcome)",
+    "C01": dict(text="seeded search over generated programs and operation histories; every simulate/assess compared with an independent reference PPL; small discrete programs covered by complete outcome trees (simulated distribution == assessed density outcome by outcome); REAL regime: shared-noise detection over one-family programs and probability-integral-transform tests of seeded draws (two-stage); bare Distribution/Vmap programs; keyword and static-argument call forms",
                 ref="DESIGN.md 4 C01", note="PPL-ref, scipy.special, JAX/XLA CPU, jaxcompat adapter trusted; bounded program sizes",
                 technique=DST + " (SCRIPTED randomness seam + outcome-tree explorer, REAL eager/jit/vmap, faults between operations)"),
-    "C02": dict(text="seeded search over programs x constraint subsets x randomness regimes; per-run weight identity, scripted routing of unconstrained sites, complete outcome trees giving sum P*exp(weight) == brute-force marginal",
+    "C02": dict(text="seeded search over programs x constraint subsets x randomness regimes; per-run weight identity, scripted routing of unconstrained sites, complete outcome trees giving sum P*exp(weight) == brute-force marginal; histories on one function object whose static argument changes the visited addresses",
                 ref="DESIGN.md 4 C02", note="as C01", technique=DST + " (SCRIPTED randomness seam + outcome-tree explorer)"),
     "C03": dict(text="stateful simulation of update transitions against a reference trace: density ratio (also across Cond branch switches), persistence, discard, round trip",
                 ref="DESIGN.md 4 C03", note="as C01", technique=DST + " (trace state machine vs reference model, faults between transitions)"),
     "C04": dict(text="stateful simulation of regenerate transitions with generated selection expressions; scripted routing shows exactly the selected leaves are redrawn from the conditional prior; MH weight identity; definedness",
                 ref="DESIGN.md 4 C04", note="as C01", technique=DST + " (trace state machine + SCRIPTED randomness seam)"),
-    "C05": dict(text="long seeded histories of edits and inference moves with exception/cache-loss/re-entrancy faults; trace re-derived from the reference after every step; telescoping along two paths",
+    "C05": dict(text="long seeded histories of edits and inference moves with exception/cache-loss/re-entrancy faults; trace re-derived from the reference after every step; telescoping along two paths; histories are trees (fork / checkout of older traces); every operation must leave its input trace and constraint map bit-identical",
                 ref="DESIGN.md 4 C05", note="as C01", technique=DST + " (trace state machine, histories + fault sequences)"),
-    "C06": dict(text="seeded search over generated seeded functions and interleaved histories of noise operations and faults; every probe point compared bit-for-bit with a golden from a pristine interpreter and across eager/jit/vmap/jit(vmap)",
+    "C06": dict(text="seeded search over generated seeded functions and interleaved histories of noise operations and faults; every probe point compared bit-for-bit with a golden from a pristine interpreter and across eager/jit/vmap/jit(vmap); persistent seeded GFI-method objects reused across argument structures that change which sites run",
                 ref="DESIGN.md 4 C06", note="trusts JAX/XLA CPU determinism, threefry, the jaxcompat adapter; sampled histories, not all",
                 technique=DST + " (operation/fault histories over the process-global state seams, pristine-process golden)"),
     "C07": dict(text="TRACER runs expose the key delivered to every (site, iteration, lane); pairwise distinctness is exact; marginal/independence of real samplers by two-stage tests over key batches",
